@@ -878,6 +878,21 @@ def pure_clauses(max_n=40, max_cols=8):
                         prob = "list payload"
                     elif any(isinstance(x, bool) or not isinstance(x, int) for cell in cells for x in cell):
                         prob = "cell coordinates are not ints"
+                    if not prob:
+                        # the grid object is long-lived (one per figure): asking again, asking
+                        # for the empty cells first, and two passes at once give the same cells
+                        again_m = list(g.items(missing=True, transpose=transpose))
+                        again_i = list(g.items(transpose=transpose))
+                        g2 = DataPlotGrid(data, ncols=ncols)
+                        first_m = list(g2.items(missing=True, transpose=transpose))
+                        then_i = list(g2.items(transpose=transpose))
+                        pairs = list(zip(g2.items(transpose=transpose), g2.items(transpose=transpose)))
+                        if again_m != missing or again_i != items:
+                            prob = "a repeated query on the same grid differs from the first"
+                        elif first_m != missing or then_i != items:
+                            prob = "empty cells asked for before the data cells"
+                        elif [a for a, _ in pairs] != items or [b for _, b in pairs] != items:
+                            prob = "two passes over the same grid at once"
                     if prob:
                         return cases, {"what": "grid: " + prob, "n": n, "ncols": ncols,
                                        "dict": as_dict, "transpose": transpose,
@@ -898,6 +913,16 @@ def pure_clauses(max_n=40, max_cols=8):
         if keys != wantk or vals != wantv or both != list(zip(wantk, wantv)):
             return cases, {"what": "combination", "shape": list(shape), "keys": keys[:20],
                            "values": vals[:20], "items": both[:20]}
+        # asked again, in another order, and two passes at once
+        both2, vals2, keys2 = list(dc.items()), list(dc.values()), list(dc.keys())
+        pairs = list(zip(dc.items(), dc.items()))
+        dc2 = DataCombination(items)
+        both3, keys3 = list(dc2.items()), list(dc2.keys())
+        if keys2 != wantk or vals2 != wantv or both2 != both or both3 != both or keys3 != wantk \
+                or [a for a, _ in pairs] != both or [b for _, b in pairs] != both:
+            return cases, {"what": "combination: a repeated or reordered query differs from the "
+                                   "first", "shape": list(shape), "keys": keys2[:20],
+                           "values": vals2[:20], "items": both2[:20]}
     # payloads that repeat or compare equal (0 / False, 1 / 1.0): positions, not values, make
     # the index tuples
     for items in ([["a", "b", "a"]], [[0.1, 0.2, 0.1], ["x", "y"]], [[0, False, 1, 1.0]],
